@@ -111,16 +111,17 @@ Definition ex_pieces : list piece := [PNext; PFor 8; PNext; PUntil 24].
 
 Example C15_chunking_example :
   let st := final ex_cfg 50 (init ex_cfg) ex_ops in
+  let r1 := run_pieces ex_cfg 50 st ex_pieces in
+  let r2 := run_loop ex_cfg 50 32 (fst (fst r1)) in
   within ex_cfg 50 st 32 ex_pieces /\
-  exists st1 l1 st2 l2,
-    run_pieces ex_cfg 50 st ex_pieces = (st1, l1, true) /\ run_loop ex_cfg 50 32 st1 = (st2, l2, true) /\
-    length (l1 ++ l2) = 12%nat /\ s_steps st2 = 4 /\ run_loop ex_cfg 50 32 st = (st2, l1 ++ l2, true).
+  snd r1 = true /\ snd r2 = true /\ length (snd (fst r1) ++ snd (fst r2)) = 13%nat /\ s_steps (fst (fst r2)) = 4 /\
+  run_loop ex_cfg 50 32 st = (fst (fst r2), snd (fst r1) ++ snd (fst r2), true).
 Proof.
   cbv zeta. split.
   - cbn [within ex_pieces piece_within]. repeat split; try (vm_compute; discriminate).
     + intros e rest H. vm_compute in H. inversion H; subst. vm_compute. discriminate.
     + intros e rest H. vm_compute in H. inversion H; subst. vm_compute. discriminate.
-  - eexists. eexists. eexists. eexists. repeat split; vm_compute; reflexivity.
+  - repeat split; vm_compute; reflexivity.
 Qed.
 
 Example C15_step_example :
